@@ -329,12 +329,17 @@ func c16Prop(c *sim.Case) {
 	bgSecret, bgCA, bgKeys := pickBool("bg-secret"), pickBool("bg-ca"), pickBool("bg-keys")
 	c.Logf("workload: %d goroutines x %d ops, store=%s, background: secret=%v ca=%v keys=%v", nG, perG, storeKind, bgSecret, bgCA, bgKeys)
 
-	// a few sessions per tenant that SEVERAL goroutines use at the same time (parallel requests of one browser)
+	// a few sessions per tenant that SEVERAL goroutines use at the same time (parallel requests of one browser).
+	// They are planted directly in the store: logging in here, before the workers start, would warm every cache
+	// (discovery, JWKS, TLS pool) in this goroutine and order those writes before all worker reads, which would
+	// hide first-use races from the happens-before detector.
 	shared := map[string][]string{}
-	for _, t := range tenants {
+	for ti, t := range tenants {
 		for k := 0; k < 2; k++ {
-			if ck := login(t, fmt.Sprintf("shared%d", k)); ck != "" {
-				shared[t.name] = append(shared[t.name], ck)
+			idt, at, rt, exp := t.idp.Mint(fmt.Sprintf("shared%d", k))
+			sid := fmt.Sprintf("sharedsession%dx%dx%d", ti, k, time.Now().UnixNano())
+			if err := fac.Get(t.cfg).SetTokenResponse(ctx, sid, &oidc.TokenResponse{IDToken: idt, AccessToken: at, RefreshToken: rt, AccessTokenExpiresAt: exp}); err == nil {
+				shared[t.name] = append(shared[t.name], cookieName(t)+"="+sid)
 			}
 		}
 	}
